@@ -82,6 +82,8 @@ pub struct Step {
     pub obs_caller: usize,
     /// what the generator meant by this step (probes only; never read by an oracle)
     pub tag: String,
+    /// the observation after this step is made by this many threads at once (0 / 1: no)
+    pub concurrent: usize,
 }
 
 #[derive(Clone, Debug, PartialEq)]
@@ -167,6 +169,9 @@ pub fn to_json(s: &HistScenario) -> J {
                         if !st.tag.is_empty() {
                             o.put("tag", J::s(st.tag.clone()));
                         }
+                        if st.concurrent > 1 {
+                            o.put("concurrent", J::u(st.concurrent as u64));
+                        }
                         o
                     })
                     .collect(),
@@ -222,6 +227,7 @@ pub fn from_json(j: &J) -> Result<HistScenario, String> {
             caller: st.get("caller").and_then(|c| c.as_u64()).unwrap_or(0) as usize,
             obs_caller: st.get("obs_caller").and_then(|c| c.as_u64()).unwrap_or(0) as usize,
             tag: st.get("tag").and_then(|t| t.as_str()).unwrap_or("").to_owned(),
+            concurrent: st.get("concurrent").and_then(|c| c.as_u64()).unwrap_or(0) as usize,
         });
     }
     let n_callers = j.get("n_callers").and_then(|n| n.as_u64()).unwrap_or(1) as usize;
@@ -570,6 +576,7 @@ fn generate_tiny(rng: &mut Rng) -> (HistScenario, String) {
             caller: rng.below(n_callers),
             obs_caller: rng.below(n_callers),
             tag: "tiny".to_owned(),
+            concurrent: if rng.pct(10) { 2 } else { 0 },
         });
     }
     steps.push(Step {
@@ -577,6 +584,7 @@ fn generate_tiny(rng: &mut Rng) -> (HistScenario, String) {
         caller: rng.below(n_callers),
         obs_caller: rng.below(n_callers),
         tag: "validate".to_owned(),
+        concurrent: 0,
     });
     let observe_every_step = rng.pct(50);
     let coarse_ids = rng.pct(25);
@@ -631,7 +639,7 @@ pub fn generate(rng: &mut Rng, prop: Prop, thorough: bool) -> (HistScenario, Str
     for e in enabled.iter_mut() {
         *e = rng.pct(65);
     }
-    let passthrough_run = thorough && files_enabled && rng.pct(6);
+    let passthrough_run = files_enabled && rng.pct(if thorough { 8 } else { 5 });
     let mut st = GenState {
         u,
         gk,
@@ -659,11 +667,13 @@ pub fn generate(rng: &mut Rng, prop: Prop, thorough: bool) -> (HistScenario, Str
     let mut steps: Vec<Step> = Vec::new();
     // generator's copy of the bytes on disk (document + raw tail)
     let mut disk_bytes: BTreeMap<String, Vec<u8>> = BTreeMap::new();
+    let p_concurrent = *rng.pick(&[0u32, 8, 25]);
     let mk = |rng: &mut Rng, op: Op, tag: &str| Step {
         op,
         caller: rng.below(n_callers),
         obs_caller: rng.below(n_callers),
         tag: tag.to_owned(),
+        concurrent: if rng.pct(p_concurrent) { rng.range(2, 4) } else { 0 },
     };
     if big {
         // fill the table, then (mostly) empty it again: growth and shrink-by-removal
@@ -816,6 +826,9 @@ pub fn generate(rng: &mut Rng, prop: Prop, thorough: bool) -> (HistScenario, Str
                 let d = st.fresh_doc(rng);
                 let c = if rng.pct(6) {
                     Content::Raw(rng.pick(&["", " ", "\n", "\n\n\t "]).to_string()) // an empty / blank file
+                } else if rng.pct(4) {
+                    // a byte order mark in front of an otherwise well-formed document
+                    Content::Raw(format!("\u{feff}{}", d.render()))
                 } else {
                     st.content_from(rng, d)
                 };
@@ -923,13 +936,30 @@ pub fn generate(rng: &mut Rng, prop: Prop, thorough: bool) -> (HistScenario, Str
                 steps.push(mk(
                     rng,
                     Op::AddFile {
-                        path: p,
+                        path: p.clone(),
                         arg,
                         plan,
                         passthrough: passthrough_run,
                     },
                     &format!("add_file:{fault}"),
                 ));
+                if !fails && rng.pct(15) {
+                    // the loaded file is edited in memory, then loaded again from the unchanged disk
+                    let d = st.fresh_doc(rng);
+                    let c = Content::Doc(d);
+                    steps.push(mk(rng, Op::Add { path: p.clone(), content: c }, "overwrite_loaded_in_memory"));
+                    if rng.pct(40) {
+                        steps.push(mk(rng, Op::Validate { times: 1 }, "validate"));
+                    }
+                    if let Some(c) = st.disk.get(&disk_slot(&p)).cloned() {
+                        st.live.insert(pb(&p), (p.clone(), c));
+                    }
+                    steps.push(mk(
+                        rng,
+                        Op::AddFile { path: p, arg, plan: FaultPlan::default(), passthrough: passthrough_run },
+                        "add_file:reload_unchanged_disk",
+                    ));
+                }
             }
         }
     }
@@ -1016,6 +1046,11 @@ pub fn shrink_candidates(s: &HistScenario) -> (Vec<HistScenario>, usize) {
     }
     // simplify single steps
     for (i, st) in s.steps.iter().enumerate() {
+        if st.concurrent > 1 {
+            let mut c = s.clone();
+            c.steps[i].concurrent = 0;
+            out.push(c);
+        }
         match &st.op {
             Op::Warmup { n } if *n > 1 => {
                 let mut c = s.clone();
